@@ -24,18 +24,28 @@ package srv
 //@   pure
 //@ extern func (*github.com/Factom-Asset-Tokens/factom.EsAddress).Set
 //@   modifies *adr
-//@ extern func (*github.com/Factom-Asset-Tokens/factom.Heights).Get
-//@   modifies *h
+//@
+//@ // the averages for an API answer are computed on a private node value (F12): the node's own cache is not touched
+//@ func (*APIServer).averagesAt
+//@   nopanic off
+//@   requires @wellformed s.Node != nil
+//@   modifies nothing
 //@
 //@ func (*APIServer).getGlobalRichList
 //@   nopanic off
 //@   requires @wellformed s.Node != nil && s.Node.Pegnet != nil && s.Node.Sync != nil
 //@   modifies nothing
+//@   loop 1 invariant @own_result fresh(res)
+//@   loop 1 preserves old
+//@   loop 2 invariant @own_result fresh(res)
+//@   loop 2 preserves old
 //@
 //@ func (*APIServer).getRichList
 //@   nopanic off
 //@   requires @wellformed s.Node != nil && s.Node.Pegnet != nil && s.Node.Sync != nil
 //@   modifies nothing
+//@   loop 1 invariant @own_result fresh(res)
+//@   loop 1 preserves old
 //@
 //@ func (*APIServer).getBank
 //@   nopanic off
